@@ -15,6 +15,8 @@
 package moss
 
 import (
+	"bytes"
+
 	"github.com/couchbase/moss"
 )
 
@@ -30,7 +32,23 @@ type Iterator struct {
 }
 
 func (x *Iterator) Seek(seekToKey []byte) {
-	_ = x.iter.SeekTo(seekToKey)
+	if x.err != nil || bytes.Compare(seekToKey, x.k) < 0 {
+		// moss narrows an iterator to the one segment that still has
+		// entries ahead, so seeking it backwards would miss the entries
+		// (including deletions) of the other segments; start over instead
+		if bytes.Compare(seekToKey, x.start) < 0 {
+			seekToKey = x.start
+		}
+		iter, err := x.ss.StartIterator(seekToKey, x.end, moss.IteratorOptions{})
+		if err != nil {
+			x.k, x.v, x.err = nil, nil, err
+			return
+		}
+		_ = x.iter.Close()
+		x.iter = iter
+	} else {
+		_ = x.iter.SeekTo(seekToKey)
+	}
 
 	x.k, x.v, x.err = x.iter.Current()
 }
